@@ -6,7 +6,7 @@ from __future__ import annotations
 
 import importlib
 
-MODULES = ["pymath", "misc"]
+MODULES = ["pymath", "misc", "geom"]
 
 
 def install(it):
@@ -17,6 +17,7 @@ def install(it):
             it.externals[dotted] = _wrap(it, dotted, fn, doc)
         for key, fn in getattr(mod, "ATTRS", {}).items():
             it.ext_attrs[key] = fn
+        it.spec_funcs.update(getattr(mod, "SPEC_FUNCS", {}))
 
 
 def _wrap(it, dotted, fn, doc):
